@@ -14,7 +14,7 @@
 EXTENDS TSOracle
 
 CONSTANTS SizesC, NBC, \* level sizes (units) and buckets per level
-          Times,      \* observation / clock times explored (interior)
+          Times,      \* observation / clock times explored (inside buckets and exactly on boundaries)
           MaxOps,     \* length of the explored histories
           Repaired
 
@@ -137,17 +137,18 @@ Spec == Init /\ [][Next]_vars
 TotalOK == MergePending(st).total = TotalExp(obs)
 
 \* the retained windows are where the property-level definition puts them
-WindowsOK == seen /\ clean => \A L \in Levels : st.end[L] = WinEnd(maxT, L)
+WindowsOK == seen => \A L \in Levels : st.end[L] = WinEnd(maxT, L)
 
 \* range end points worth asking about: the boundaries around every explored time, at every level
-Bounds == UNION {{FloorTo(t, Sizes[L]), FloorTo(t, Sizes[L]) + Sizes[L]} : t \in Times, L \in Levels}
+Bounds == UNION {{FloorTo(t, Sizes[L]) - Sizes[L], FloorTo(t, Sizes[L]), FloorTo(t, Sizes[L]) + Sizes[L]} :
+                    t \in Times, L \in Levels}
 
 \* every judged range that starts at one of these points: b = a + k buckets of the level
 \* that RangeJudged selects for a (k = 0 .. NB + 1 covers the empty, partial-window and
 \* beyond-the-window cases)
 RangeOK == LET s == MergePending(st) IN
            \A a \in Bounds :
-              (seen /\ clean /\ Covering(maxT, a) # {}) =>
+              (seen /\ Covering(maxT, a) # {}) =>
                  LET L == LevelFor(maxT, a) IN
                  \A k \in 0..(NB + 1) :
                     LET b == a + k * Sizes[L] IN
